@@ -12,7 +12,7 @@ import json
 import os
 import re
 
-from ..ctx import Ctx, is_lib_exc, outcome, tb_origin
+from ..ctx import Ctx, is_lib_exc, outcome, raised_inside_lib, tb_origin
 from ..hooks import ArmRecorder, Reach, backend_available, set_backend
 
 PROPERTY = "C08"
@@ -105,6 +105,10 @@ class Lib:
         from btclib.script import ScriptPubKey, Witness
         from btclib.script.engine import ScriptFlag, verify_input, verify_transaction
         from btclib.script.engine.script import verify_script
+        from btclib.script.engine import tapscript as tapscript_engine
+        from btclib.script.engine import script_op_codes
+
+        tap_run_ops = getattr(tapscript_engine, "verify_script_path_vc0", None)
         from btclib.tx import OutPoint, Tx, TxIn, TxOut
 
         self.__dict__.update(locals())
@@ -348,6 +352,8 @@ def _stack_case(ctx: Ctx, lib: Lib, g, cm) -> None:
     if any(b in script for b in (b"\xac", b"\xad", b"\xae", b"\xaf", b"\xba")):
         script = script.replace(b"\xac", b"\x61").replace(b"\xad", b"\x61").replace(b"\xae", b"\x61").replace(b"\xaf", b"\x61").replace(b"\xba", b"\x61")
     flags = g.flags()
+    if r.random() < 0.25 and getattr(lib, "tap_run_ops", None) is not None:
+        return _tapscript_stack_case(ctx, lib, g, cm, pushes, body, flags)
     case = g._case("stack:final-stack-compared", script, b"", [], flags)
     ck = cm.Checker(case.tx, case.n_in, case.spent[case.n_in].value, case.spent)
     # the same program as a legacy script and as a witness v0 script (MINIMALIF and the initial stack are what differ)
@@ -376,3 +382,94 @@ def _stack_case(ctx: Ctx, lib: Lib, g, cm) -> None:
     else:
         ctx.stat("verdict:both-accept" if mres == "OK" else "verdict:both-reject")
     ctx.case("stack:final-stack-compared", (script, flags, case.tx.ser(False)), sample=d)
+
+
+def _minimal_push(e: bytes) -> bytes:
+    from ..gen.spends import push_data
+
+    if len(e) == 0:
+        return b"\x00"
+    if len(e) == 1 and 1 <= e[0] <= 16:
+        return bytes([0x50 + e[0]])
+    if e == b"\x81":
+        return b"\x4f"
+    return push_data(e)
+
+
+def _tapscript_stack_case(ctx: Ctx, lib: Lib, g, cm, pushes: bytes, body: bytes, flags: int) -> None:
+    """The same programs under BIP342: the tapscript loop has its own dispatch table, CHECKSIGADD, consensus MINIMALIF,
+    no op-count limit and a signature budget. Core's EvalScript(TAPSCRIPT) stack is made observable through the public
+    verify_script_path_vc0 by appending, for every element the model leaves, `<element> OP_EQUALVERIFY` and then
+    `OP_DEPTH OP_NOT`: the extended program succeeds exactly when the library's stack is the model's."""
+    r = ctx.rng
+    from ..gen.spends import push_data
+
+    # signature opcodes stay in: operands that decide them without a real signature (empty signature, key types
+    # BIP342 left upgradable, the empty key) plus a well-formed key with a 64-byte non-signature
+    tail = b""
+    for _ in range(r.randrange(0, 3)):
+        sig = r.choice([b"", b"", b"\x01", bytes(64), bytes(r.randrange(256) for _ in range(64)), bytes(65)])
+        key = r.choice([b"", b"\x01", b"\x02" + bytes(32), bytes(31), g.pool.key(r.randrange(4))[1][0].to_bytes(32, "big")])
+        form = r.randrange(3)
+        if form == 0:
+            tail += push_data(sig) + push_data(key) + r.choice([b"\xac", b"\xad", b"\xac\x69"])
+        elif form == 1:
+            tail += push_data(sig) + r.choice([b"\x00", b"\x51", b"\x01\x7f", b"\x04\xff\xff\xff\x7f", b"\x05\x00\x00\x00\x00\x01"]) + push_data(key) + b"\xba"
+        else:
+            tail += push_data(sig) + push_data(key) + b"\xac" + r.choice([b"\x63\x51\x68", b"\x64\x52\x67\x53\x68", b"\x91"])
+    script = pushes + (body if r.random() < 0.8 else b"") + tail + (g.script(r.randrange(0, 4)) if r.random() < 0.3 else b"")
+    if r.random() < 0.9:  # mostly without OP_SUCCESSx, which ends validation before any stack exists
+        pc = 0
+        while pc < len(script):
+            op = cm.get_op(script, pc)
+            if op is None:
+                break
+            if cm.is_op_success(op[0]):
+                script = script[:pc] + b"\x61" + script[pc + 1:]
+                pc += 1
+            else:
+                pc = op[2]
+    budget = r.choice([0, 49, 50, 99, 100, 149, 5000])
+    init = [bytes(x) for x in g.items(r.randrange(0, 4))] if r.random() < 0.5 else []
+
+    def model(sc, whole):
+        case = g._case("stack:tapscript-final-stack-compared", sc, b"", [], flags)
+        ck = cm.Checker(case.tx, case.n_in, case.spent[case.n_in].value, case.spent)
+        ed = cm.ExecData(annex=None, tapleaf_hash=cm.tapleaf_hash(0xC0, sc), weight_left=budget)
+        st = list(init)
+        try:
+            if whole:
+                cm.execute_witness_script(st, sc, flags, cm.TAPSCRIPT, ck, ed)
+            else:
+                cm.eval_script(st, sc, flags, ck, cm.TAPSCRIPT, ed)
+            return case, "OK", st
+        except cm.ScriptErr as e:
+            return case, e.code, st
+
+    _, loop_res, mstack = model(script, False)
+    observed = script
+    if loop_res == "OK" and len(mstack) <= 40:
+        observed = script + b"".join(_minimal_push(bytes(e)) + b"\x88" for e in reversed(mstack)) + b"\x74\x91"
+        ctx.stat("stack:tapscript:stack-made-observable")
+    case, mres, _ = model(observed, True)
+    prev, tx = lib.build(case)
+    lo = outcome(lib.tap_run_ops, observed, list(init), prev, tx, case.n_in, b"", budget, lib.flags(flags))
+    ctx.stat("stack:tapscript")
+    d = {"script": script.hex(), "observed_script": observed.hex(), "flags": case.describe()["flags"], "model": mres, "model_loop": loop_res,
+         "model_stack": [bytes(x).hex() for x in mstack[:20]], "tx": case.tx.ser(True).hex(), "sigversion": "tapscript",
+         "initial_stack": [x.hex() for x in init], "budget": budget}
+    if lo[0] == "raise" and not is_lib_exc(lo[1]):
+        ctx.violation(f"foreign-exception:{type(lo[1]).__name__}@{tb_origin(lo[1])}", f"verify_script_path_vc0 raised {lo[1]!r}", d)
+    elif (lo[0] == "ok") != (mres == "OK"):
+        if lo[0] == "ok":
+            tag = f"tapscript-accepts-where-core-fails:{mres}"
+        elif observed is not script and "OP_EQUALVERIFY" in str(lo[1]).upper() or (observed is not script and "equalverify" in _norm(str(lo[1]))):
+            tag = "final-stack-differs:tapscript"
+        else:
+            tag = f"tapscript-fails-where-core-runs:{_norm(str(lo[1]))}"
+        ctx.violation(tag, f"tapscript divergence: Core model {mres}, library {'OK' if lo[0] == 'ok' else str(lo[1])[:100]}", d)
+    else:
+        ctx.stat("verdict:both-accept" if mres == "OK" else "verdict:both-reject")
+        if mres == "OK" and tail:
+            ctx.stat("stack:tapscript:sigop-program-ran")
+    ctx.case("stack:tapscript-final-stack-compared", (script, flags, budget, tuple(init)), sample=d)
